@@ -8995,6 +8995,13 @@ class SVG(Group):
         viewbox = values.get(SVG_ATTR_VIEWBOX)
         par = values.get(SVG_ATTR_PRESERVEASPECTRATIO)
         self.viewbox = Viewbox(viewbox, par) if viewbox is not None else None
+        if self.viewbox is not None and (
+            self.viewbox.x is None
+            or self.viewbox.y is None
+            or self.viewbox.width is None
+            or self.viewbox.height is None
+        ):
+            self.viewbox = None  # Fewer than four numbers: the viewBox is in error and ignored.
 
     def get_element_by_id(self, id):
         return self.objects.get(id)
